@@ -128,11 +128,30 @@ def r_arith(F, V):
                         roots = [body.root_of_place(o["p"])[0] for o in (rv["a"], rv["b"]) if o["k"] in ("copy", "move")]
                         if size_root in roots:
                             ok = True
-                            if not S.has_load("ctrl_align"):
+                            # the *bound* operand (the one that is not the length) is isize::MAX reduced by the alignment padding
+                            bound_ops = [o for o in (rv["a"], rv["b"]) if not (o["k"] in ("copy", "move") and body.root_of_place(o["p"])[0] == size_root)]
+                            SB = [sources(body, o) for o in bound_ops]
+                            if not SB or not all(sb.has_load("ctrl_align") and ("Sub" in sb.binops or "SubWithOverflow" in sb.binops or "SubUnchecked" in sb.binops) for sb in SB):
                                 ok = False
-                                why = "the bound the length is compared against does not account for the alignment padding (isize::MAX - (ctrl_align - 1))"
+                                why = "the bound the length is compared against does not account for the alignment padding (isize::MAX - (ctrl_align - 1)): a size that only exceeds isize::MAX after rounding up to the alignment is accepted"
                         else:
                             why = "the value compared against the isize::MAX bound is not the length passed to Layout::from_size_align_unchecked"
+                            # equivalent form: (len + (ctrl_align - 1)) compared against isize::MAX
+                            for o in (rv["a"], rv["b"]):
+                                if o["k"] not in ("copy", "move"):
+                                    continue
+                                dd = body.single_def(body.root_of_place(o["p"])[0])
+                                parts = []
+                                if dd and dd[0] == "call" and (callee_path(dd[3]) or "").endswith("checked_add"):
+                                    parts = dd[3]["args"]
+                                elif dd and dd[0] == "stmt" and dd[3]["rv"]["k"] == "binop" and dd[3]["rv"]["op"].startswith("Add"):
+                                    parts = [dd[3]["rv"]["a"], dd[3]["rv"]["b"]]
+                                if len(parts) == 2:
+                                    pr = [body.root_of_place(x["p"])[0] if x["k"] in ("copy", "move") else None for x in parts]
+                                    if size_root in pr:
+                                        other = parts[1 - pr.index(size_root)]
+                                        if sources(body, other).has_load("ctrl_align"):
+                                            ok = True
                 if ok:
                     R.inst(key, "the length passed to from_size_align_unchecked is the value compared against isize::MAX - (align - 1)", "ok", True, where(body, bb=i))
                 else:
@@ -158,7 +177,30 @@ def r_arith(F, V):
                 has_align = any(c.endswith("Layout::align") for c in S.calls)
                 has_w = any(c.get("val") == W for c in S.consts) or any("WIDTH" in (c.get("def") or "") for c in S.consts)
                 has_cmp = bool({"Gt", "Lt", "Ge", "Le"} & S.binops) or any(c.endswith("::max") for c in S.calls)
-                if has_align and has_w and has_cmp:
+                # every value the field can take is one of the two candidates (the element alignment or the group width)
+                stray = []
+                if op["k"] in ("copy", "move") and not op["p"].get("proj"):
+                    for d in body.defs.get(op["p"]["l"], ()):
+                        if d[0] == "call":
+                            cpd = callee_path(d[3]) or ""
+                            if not (cpd.endswith("Layout::align") or cpd.endswith("::max") or cpd.endswith("mem::align_of")):
+                                stray.append(cpd)
+                        elif d[3]["k"] == "assign":
+                            rvd = d[3]["rv"]
+                            if rvd["k"] == "use" and rvd["op"]["k"] == "const":
+                                if not (rvd["op"].get("val") == W or "WIDTH" in (rvd["op"].get("def") or "")):
+                                    stray.append("constant %s" % rvd["op"].get("val"))
+                            elif rvd["k"] == "use" and rvd["op"]["k"] in ("copy", "move"):
+                                Sd = sources(body, rvd["op"], follow_phi=False)
+                                if not (any(c.endswith("Layout::align") for c in Sd.calls) and not any(c.endswith("Layout::size") for c in Sd.calls)):
+                                    stray.append("a copied value not from Layout::align")
+                            else:
+                                stray.append("a computed value (%s)" % rvd["k"])
+                if stray:
+                    R.violation(key, body, "TableLayout.ctrl_align can take a value that is neither the element alignment nor the group width (%s): the allocation alignment would not be a valid "
+                                "power-of-two alignment covering both the elements and the control groups" % ", ".join(sorted(set(stray))), line=line_of(body, stmt=s))
+                    R.inst(key, "ctrl_align takes a stray value", "violation", True, where(body, stmt=s))
+                elif has_align and has_w and has_cmp:
                     R.inst(key, "ctrl_align = max(align_of::<T>(), Group::WIDTH)", "ok", True, where(body, stmt=s))
                 else:
                     R.violation(key, body, "TableLayout::new does not compute ctrl_align as the maximum of the element alignment and the group width (element alignment used: %s, group width used: %s, compared: %s)" % (has_align, has_w, has_cmp), line=line_of(body, stmt=s))
